@@ -339,6 +339,10 @@ func (e *ev) evalNumber(s map[string]any, f float64, apply func(string, Verdict)
 			default:
 				apply("multipleOf", Contested)
 			}
+		} else if fr, _ := math.Frexp(m); m > 0 && fr == 0.5 && math.Abs(f) < 1e300 && (f == 0 || math.Abs(f) > 1e-300) {
+			// a power of two as divisor: the float64 quotient is exact for a number of any magnitude
+			q := f / m
+			apply("multipleOf", b2v(q == math.Trunc(q)))
 		} else if m <= 0 || !dyadic(m) || !dyadic(f) {
 			apply("multipleOf", Contested)
 		} else {
